@@ -237,8 +237,9 @@ def check_loop_exits(ctx, tu, rule='C01.T'):
                     continue
                 blk = f.blocks[b]
                 c = blk.get('cond')
-                if c and L.nonnull_test(f, c, cname) and blk['succ'][1] == s:
-                    continue     # cursor == null
+                r = L.nonnull_test(f, c, cname) if c else None
+                if r and blk['succ'][1 if r == 'true' else 0] == s:
+                    continue     # the edge taken when the cursor is null (`while(node)` false edge, `if(! node) break` true edge)
                 if b == ipos[0] or ipos[0] in f.dom()[b]:
                     # reached only after the visitor ran; but it must be *this iteration's* visit: the path from the loop test to b passes the invocation
                     continue
